@@ -126,6 +126,7 @@ def freach(T, starts, known=None):
     body = T.body
     R = T.restrict(starts)
     seen = set()
+    kept = {}
     st = list(starts)
     while st:
         b = st.pop()
@@ -138,7 +139,12 @@ def freach(T, starts, known=None):
             sf = R.switch_facts(b)
             if sf is not None:
                 dt, edges = sf
-                v = _known_variant(norm(dt), known)
+                nd = norm(dt)
+                if nd[0] == 'const' and nd[1] == 'bool' and isinstance(nd[2], bool):
+                    keep = [s for s, labs in edges.items() if ('bool', nd[2]) in labs]
+                    if keep:
+                        succs = keep
+                v = _known_variant(nd, known)
                 if v is not None:
                     keep = [s for s, labs in edges.items() if any(l[0] == 'variant' and l[1] in v for l in labs)]
                     if keep:
@@ -149,14 +155,70 @@ def freach(T, starts, known=None):
                         keep = [s for s, labs in edges.items() if ('bool', bv) in labs]
                         if keep:
                             succs = keep
+        kept[b] = list(succs)
         for s in succs:
             st.append(s)
     R2 = T.restrict(starts, within=seen)
     R2._restricted = seen
+    R2._kept_edges = kept
     return R2, seen
 
 
-_EQUIV = {'Ok': ('Ok', 'Continue'), 'Err': ('Err', 'Break'), 'Some': ('Some', 'Continue'), 'None': ('None', 'Break')}
+def fmust_pass(T, starts, through, known=None):
+    """On the feasible sub-graph entered through `starts`: does every path to a return pass a block of `through`?"""
+    R, seen = freach(T, starts, known)
+    kept = R._kept_edges
+    body = T.body
+    st = [s for s in starts]
+    vis = set()
+    while st:
+        b = st.pop()
+        if b in vis or b in through:
+            continue
+        vis.add(b)
+        if body.blocks[b]['term']['k'] == 'return':
+            return False
+        for s in kept.get(b, []):
+            st.append(s)
+    return True
+
+
+def result_cases(T, call_bb, subject=None):
+    """How the returned value depends on the outcome of the call in block call_bb (or of `subject` term).
+    Returns {'ok': set(leaves), 'err': set(leaves), '?': set(leaves)}; both `match`/`?`/is_ok() switches and the std
+    combinators (map, map_err, ok_or_else, ...) are understood."""
+    from .. import symb
+    ct = subject if subject is not None else norm(T.call_term(call_bb))
+    OKV, ERRV = ('Ok', 'Some'), ('Err', 'None')
+    out = {'ok': set(), 'err': set(), '?': set()}
+
+    def add(side, terms, knownv):
+        for r in terms:
+            for asm, leaf in symb.split_cases(r):
+                cls = side
+                contradiction = False
+                for s, v in asm:
+                    if s == ct:
+                        c2 = 'ok' if v in OKV else 'err'
+                        if side in ('ok', 'err') and c2 != side:
+                            contradiction = True
+                        cls = c2
+                if not contradiction:
+                    out[cls].add(leaf)
+
+    oe = outcome_edges(T, call_bb) if call_bb is not None else {}
+    ok_e = set(s for (b, s), v in oe.items() if v == 'ok')
+    err_e = set(s for (b, s), v in oe.items() if v == 'err')
+    if ok_e and err_e:
+        # is the result an Option or a Result? take the label set from the switch
+        add('ok', ret_terms(T, ok_e, known={ct: 'Ok'}), 'ok')
+        add('err', ret_terms(T, err_e, known={ct: 'Err'}), 'err')
+    else:
+        add('?', ret_terms(T, [0]), None)
+    return out
+
+
+_EQUIV = {'Ok': ('Ok', 'Some', 'Continue'), 'Err': ('Err', 'None', 'Break'), 'Some': ('Some', 'Ok', 'Continue'), 'None': ('None', 'Err', 'Break')}
 
 
 def _known_bool(dt, known):
@@ -427,3 +489,23 @@ def adt_fields(crate, path):
     if not a:
         return None
     return a['variants'][0]['fields']
+
+
+def client_field(cad, role, adt='cadence::client::StatsdClient'):
+    """Private field of StatsdClient (or its builder) by role (type based): 'sink' -> Box<dyn MetricSink..>,
+    'errors' -> Box<dyn Fn(MetricError)..>, 'prefix' -> the String, 'tags' -> Vec<(Option<String>, String)>,
+    'container_id' -> Option<String>."""
+    fs = adt_fields(cad, adt) or []
+    for f in fs:
+        ty = f['ty'].replace(' ', '')
+        if role == 'sink' and 'dyncadence::sinks::core::MetricSink' in ty:
+            return f['name']
+        if role == 'errors' and 'dyncore::ops::function::Fn(cadence::types::MetricError)' in ty:
+            return f['name']
+        if role == 'prefix' and ty == 'alloc::string::String':
+            return f['name']
+        if role == 'tags' and ty.startswith('alloc::vec::Vec<(core::option::Option<alloc::string::String>'):
+            return f['name']
+        if role == 'container_id' and ty == 'core::option::Option<alloc::string::String>':
+            return f['name']
+    return None
